@@ -142,6 +142,17 @@ from typing import Any, Iterator, Iterable
 ''')]
 
 
+@mutant('c15_maps_alias_caller_dict', 'C15',
+        'ImmutableDict keeps the caller\'s dict instead of copying it when it already is a plain dict: the compiled '
+        'selector (and the cache entry) changes when the caller later changes the map it passed to compile()')
+def _():
+    return [('soupsieve/css_types.py',
+             '''        self._d = dict(arg)
+''',
+             '''        self._d = arg if type(arg) is dict else dict(arg)
+''')]
+
+
 # ---------------------------------------------------------------------------------------------- C04
 
 @mutant('c04_radio_memo_name_caseless', 'C04',
